@@ -731,7 +731,7 @@ func TestPropSyntheticMulti(t *testing.T) {
 	})
 	ev.CaseEnum(total, nt)
 	// sampled longer sequences (may repeat: counted distinct by key)
-	nSample := ev.Scale(1500, 40000)
+	nSample := ev.Scale(6000, 60000)
 	for s := 0; s < nSample; s++ {
 		rtl := rng.Intn(2) == 1
 		e := 0
